@@ -645,3 +645,18 @@ mod proptests {
         }
     }
 }
+
+/// Verification hooks (compiled only with `--cfg decaf377_verif`): raw access to the
+/// internal extended coordinates, so that a test harness can build arbitrary
+/// representatives (other coset member, projective rescalings, off-curve points) and
+/// check structural invariants of results. Never available in normal builds.
+#[cfg(decaf377_verif)]
+impl Element {
+    pub fn verif_from_xyzt_unchecked(x: Fq, y: Fq, z: Fq, t: Fq) -> Self {
+        Self { x, y, z, t }
+    }
+
+    pub fn verif_xyzt(&self) -> (Fq, Fq, Fq, Fq) {
+        (self.x, self.y, self.z, self.t)
+    }
+}
